@@ -122,6 +122,9 @@ func invokeDirect(api API, c *Call, args callArgs) (o Outcome) {
 			}
 			return o
 		}
+		if c.Corrupt > 0 {
+			p = api.CorruptPatch(p, c.Corrupt)
+		}
 		o.Extra = api.Describe(p, true)
 		o.patch = p
 	case FnAccessors:
@@ -158,7 +161,7 @@ var curDefaults struct {
 
 func descKey(target string, c *Call, a, b, patchText []byte) string {
 	var sb strings.Builder
-	fmt.Fprintf(&sb, "%s|%d|%v|%q|%d|%d|%d|%d|%v|", target, c.Fn, c.Opts, c.Indent, len(a), len(b), len(patchText), curDefaults.limit, curDefaults.negOff)
+	fmt.Fprintf(&sb, "%s|%d|%v|%q|%d|%d|%d|%d|%v|%d|", target, c.Fn, c.Opts, c.Indent, len(a), len(b), len(patchText), curDefaults.limit, curDefaults.negOff, c.Corrupt)
 	sb.Write(a)
 	sb.WriteByte(0)
 	sb.Write(b)
@@ -191,7 +194,7 @@ func pristineOnce(api API, c *Call, a, b, patchText []byte, mapPolicy int, budge
 	var o Outcome
 	if usesSlot(c.Fn) {
 		// a freshly decoded patch, decoded inside the same pristine world
-		dc := Call{Fn: FnDecodePatch}
+		dc := Call{Fn: FnDecodePatch, Corrupt: c.Corrupt}
 		d := invoke(api, &dc, callArgs{a: cp(patchText)})
 		if d.patch == nil {
 			o = Outcome{Status: StSkipped}
@@ -347,7 +350,7 @@ func (rn *runner) planPristine(prelude, calls []Call, slotSrc []int) []pristineP
 		}
 		if c.Fn == FnDecodePatch {
 			if c.Slot >= 0 && c.Slot < len(slotSrc) {
-				slotSrc[c.Slot] = c.A
+				slotSrc[c.Slot] = c.A | c.Corrupt<<20
 			}
 		}
 		if usesSlot(c.Fn) {
@@ -355,9 +358,16 @@ func (rn *runner) planPristine(prelude, calls []Call, slotSrc []int) []pristineP
 				out[i] = pristinePair{&Outcome{Status: StSkipped}, &Outcome{Status: StSkipped}}
 				continue
 			}
-			pt = rn.sc.Bufs[slotSrc[c.Slot]]
+			pt = rn.sc.Bufs[slotSrc[c.Slot]&0xfffff]
 			if c.Fn == FnAccessors {
 				a = nil
+			}
+			if k := slotSrc[c.Slot] >> 20; k > 0 {
+				// the pristine evaluation builds the same hand-assembled Patch
+				cc := *c
+				cc.Corrupt = k
+				out[i] = pristine(rn.api, &cc, a, b, pt, rn.sc.budgetFor(len(a)+len(b)+len(pt)))
+				continue
 			}
 		}
 		if !rn.api.Supports(c.Fn) {
@@ -428,7 +438,7 @@ func (rn *runner) execCalls(ts *taskState, calls []Call, want []pristinePair) {
 		}
 		insz := len(args.a) + len(args.b)
 		if usesSlot(c.Fn) && ts.slotSrc[c.Slot] >= 0 {
-			insz += len(sc.Bufs[ts.slotSrc[c.Slot]])
+			insz += len(sc.Bufs[ts.slotSrc[c.Slot]&0xfffff])
 		}
 		bud := sc.budgetFor(insz)
 		w.BeginCall(c.ID, uint32(c.Fn), src, bud)
@@ -458,7 +468,7 @@ func (rn *runner) execCalls(ts *taskState, calls []Call, want []pristinePair) {
 		}
 		if c.Fn == FnDecodePatch && c.Slot >= 0 && c.Slot < len(ts.slots) {
 			ts.slots[c.Slot] = o.patch
-			ts.slotSrc[c.Slot] = c.A
+			ts.slotSrc[c.Slot] = c.A | c.Corrupt<<20
 			ts.slotUses[c.Slot] = 0
 			if o.patch != nil {
 				ts.slotSnap[c.Slot] = rn.api.Snapshot(o.patch)
